@@ -3,6 +3,7 @@ package rules
 import (
 	"go/token"
 	"go/types"
+	"strings"
 
 	"fv/internal/core"
 	"fv/internal/ssax"
@@ -78,6 +79,9 @@ func C16(ctx *core.Ctx) {
 	ctx.Rule("C16.R4", "fan-out and copies: processor applies middleware to every processor function; providers return a copy of their middleware", 4)
 	ctx.Rule("C16.R5", "Arguments/Results accessors are total: Context/SetContext use element 0, Error/SetError the last element, on every path", 4)
 	ctx.Rule("C16.R6", "per-invocation storage: closures that run once per call write only slices they allocate themselves", 1)
+	if cc := LoadCC(ctx); cc.OK() {
+		c16ParentTests(ctx, cc)
+	}
 
 	// ---- R1 ---------------------------------------------------------------------
 	if am := r.Fn("C16.R1", "(*Method).AddMiddleware"); am != nil {
@@ -565,4 +569,82 @@ func ascendingWholeSlice(idx ssa.Value, S ssa.Value) bool {
 		}
 	}
 	return startOK && guardOK
+}
+
+// c16ParentTests — C16.R7. Service.ExtendsInclude() is the include qualifier
+// of the parent's name ("" for a parent declared in the same file); whether a
+// service *has* a parent is Service.Extends != "". A generator branch taken on
+// ExtendsInclude() != "" may only do what concerns the include (qualify or
+// import the parent through it). Used as the "has a parent" test it skips
+// same-file parents: the generated derived processor then does not forward
+// addMiddleware to its parent, whose handlers run without the middleware.
+func c16ParentTests(ctx *core.Ctx, cc *CC) {
+	ctx.Rule("C16.R7", "\"has a parent\" is Service.Extends: a generator branch on ExtendsInclude() only qualifies or imports the parent through the include", 1)
+	n := 0
+	for _, fn := range cc.Fns {
+		if fn.Pkg == nil || !strings.Contains(fn.Pkg.Pkg.Path(), "/compiler/generator") {
+			continue
+		}
+		isEI := func(v ssa.Value) bool {
+			c, ok := CallValue(v)
+			return ok && c.Static != nil && c.Static.Name() == "ExtendsInclude"
+		}
+		for _, b := range fn.Blocks {
+			iff, ok := b.Instrs[len(b.Instrs)-1].(*ssa.If)
+			if !ok {
+				continue
+			}
+			bo, ok := iff.Cond.(*ssa.BinOp)
+			if !ok || (bo.Op != token.NEQ && bo.Op != token.EQL) {
+				continue
+			}
+			var ei ssa.Value
+			switch {
+			case isEI(bo.X):
+				ei = bo.X
+			case isEI(bo.Y):
+				ei = bo.Y
+			default:
+				continue
+			}
+			if s, isS := ConstString(bo.X); !(isS && s == "") {
+				if s2, isS2 := ConstString(bo.Y); !(isS2 && s2 == "") {
+					continue
+				}
+			}
+			n++
+			region := b.Succs[0] // non-empty include
+			if bo.Op == token.EQL {
+				region = b.Succs[1]
+			}
+			// the region uses the include (this value or another ExtendsInclude() result) for something
+			uses := false
+			for _, rb := range fn.Blocks {
+				if !(rb == region || region.Dominates(rb)) || len(region.Preds) != 1 {
+					continue
+				}
+				for _, in := range rb.Instrs {
+					for _, op := range in.Operands(nil) {
+						if *op == nil {
+							continue
+						}
+						if ssax.Strip(*op) == ssax.Strip(ei) || isEI(*op) {
+							if _, isBin := in.(*ssa.BinOp); isBin && in == ssa.Instruction(bo) {
+								continue
+							}
+							uses = true
+						}
+					}
+					if c, isC := in.(*ssa.Call); isC && isEI(c) {
+						uses = true
+					}
+				}
+			}
+			ctx.Check(uses, "C16.R7", QName(fn)+sprintf(" › branch #%d on ExtendsInclude() concerns the include", n), cc.IPos(iff), "the branch qualifies/imports the parent through the include value",
+				"the branch taken when ExtendsInclude() is non-empty never uses the include: it stands in for 'the service has a parent', which is false for a parent declared in the same file — what it emits (e.g. the forwarding of addMiddleware to the parent processor) is missing for same-file inheritance, so inherited methods run without the middleware")
+		}
+	}
+	if n == 0 {
+		ctx.Discharge("C16.R7", "generators › no branch on ExtendsInclude()", "", "nothing to check")
+	}
 }
